@@ -314,15 +314,17 @@ func (dsc *Discipline[Type]) waitZeroActual() {
 	}
 }
 
-func (dsc *Discipline[Type]) getOneFeedback() {
+func (dsc *Discipline[Type]) getOneFeedback() bool {
 	select {
 	case <-dsc.breaker.IsBreaked():
-		return
+		return true
 	case <-dsc.opts.Ctx.Done():
-		return
+		return true
 	case priority := <-dsc.opts.Feedback:
 		dsc.decreaseActual(priority)
 	}
+
+	return false
 }
 
 func (dsc *Discipline[Type]) getLimitedFeedback() {
@@ -407,7 +409,13 @@ func (dsc *Discipline[Type]) waitCalcTactic() error {
 			return nil
 		}
 
-		dsc.getOneFeedback()
+		if interrupted := dsc.getOneFeedback(); interrupted {
+			// nothing may be spent in this round: the main loop will observe
+			// the stop signal and terminate
+			dsc.resetTactic()
+
+			return nil
+		}
 	}
 }
 
